@@ -8,6 +8,8 @@ package main
 //   delete  delete(field, k)
 //   read    any other mention (comparison with nil, lookup, append argument, range, …)
 //   call    a call of resetVisitedPathItemRefs (field = "resetVisitedPathItemRefs")
+//   field   a declared field of struct Loader (fn = "Loader", field = "<decl>", detail = "<name> <type>"); every declared
+//           field except Context is tracked, the exported switches IsExternalRefsAllowed / ReadFromURIFunc included
 // This is what a load leaves behind in the Loader for the next one: the model of histories (KinModel/Reads.lean: carry)
 // keeps visitedDocuments, resets the in-progress state, and has no use for rootDir / rootLocation because no row reads them.
 
@@ -44,6 +46,48 @@ func extractLoaderState(repo string) (string, error) {
 		names = append(names, e.Name())
 	}
 	sort.Strings(names)
+	// the declared fields of struct Loader (rows fn "Loader", access "field", detail = type): every field — exported switches
+	// and private state alike — is tracked (except Context, whose name is shared with other types), so that a NEW piece of
+	// state kept between calls, or a copy of a switch, shows up in the table
+	tracked := map[string]bool{}
+	for k := range loaderStateFields {
+		tracked[k] = true
+	}
+	for _, name := range names {
+		file, err := parser.ParseFile(fset, filepath.Join(dir, name), nil, 0)
+		if err != nil {
+			return "", err
+		}
+		for _, decl := range file.Decls {
+			gd, ok := decl.(*ast.GenDecl)
+			if !ok {
+				continue
+			}
+			for _, sp := range gd.Specs {
+				ts, ok := sp.(*ast.TypeSpec)
+				if !ok || ts.Name.Name != "Loader" {
+					continue
+				}
+				st, ok := ts.Type.(*ast.StructType)
+				if !ok {
+					rows = append(rows, row{"Loader", "unrecognised", "field", "", fmt.Sprintf("%s:%d", name, fset.Position(ts.Pos()).Line)})
+					continue
+				}
+				for _, f := range st.Fields.List {
+					if len(f.Names) == 0 {
+						rows = append(rows, row{"Loader", "<decl>", "field", "embedded " + read_exprText(fset, f.Type), fmt.Sprintf("%s:%d", name, fset.Position(f.Pos()).Line)})
+					}
+					for _, n := range f.Names {
+						rows = append(rows, row{"Loader", "<decl>", "field", n.Name + " " + read_exprText(fset, f.Type), fmt.Sprintf("%s:%d", name, fset.Position(f.Pos()).Line)})
+						if n.Name != "Context" {
+							tracked[n.Name] = true
+						}
+					}
+				}
+			}
+		}
+	}
+	loaderStateFields := tracked
 	for _, name := range names {
 		file, err := parser.ParseFile(fset, filepath.Join(dir, name), nil, 0)
 		if err != nil {
